@@ -687,7 +687,13 @@ def sql_membership(prog: Program) -> RuleResult:
                     if isinstance(x, ast.Call) and isinstance(x.func, ast.Name) and x.func.id in ("filter", "compress", "takewhile", "dropwhile"):
                         bad = bad or x
                     if isinstance(x, (ast.ListComp, ast.SetComp, ast.GeneratorExp)) and any(g.ifs for g in x.generators):
-                        bad = bad or x
+                        # leaving None out of the list is right when the missing value is spelled out next to it (IN never matches NULL)
+                        only_none = all(isinstance(t, ast.Compare) and len(t.ops) == 1 and isinstance(t.ops[0], ast.IsNot) and isinstance(t.comparators[0], ast.Constant) and t.comparators[0].value is None
+                                        for g in x.generators for t in g.ifs)
+                        spelled = any(isinstance(y, ast.Call) and isinstance(y.func, ast.Attribute) and y.func.attr in ("is_", "is_not", "isnot") and y.args and isinstance(y.args[0], ast.Constant) and y.args[0].value is None
+                                      for y in walk_local(m.node))
+                        if not (only_none and spelled):
+                            bad = bad or x
                     if isinstance(x, ast.Subscript) and isinstance(x.slice, ast.Slice):
                         bad = bad or x
                     if isinstance(x, ast.BinOp) and isinstance(x.op, (ast.Sub, ast.BitAnd)):
@@ -700,6 +706,16 @@ def sql_membership(prog: Program) -> RuleResult:
                     "in_(p.x, [0, 2]) selects the rows with x = 2 only, in memory both")
     if n_in < 1:
         raise AnalysisError("SQL-MEMBERSHIP: the translator no longer builds an IN (...) expression")
+    # In memory None is a member of a collection that holds None, and of no other; `col IN (..., NULL)` never matches NULL and
+    # `col NOT IN (...)` is unknown for it.  Where the translator builds IN / NOT IN from a literal collection it spells the missing value out.
+    for m in sorted(tr.methods.values(), key=lambda x: x.qual):
+        ins = [c for c in calls_in(m.node) if isinstance(c.func, ast.Attribute) and c.func.attr in ("in_", "not_in") and c.args]
+        if not ins:
+            continue
+        nulls = [y for y in walk_local(m.node) if isinstance(y, ast.Call) and isinstance(y.func, ast.Attribute) and y.func.attr in ("is_", "is_not", "isnot") and y.args and isinstance(y.args[0], ast.Constant) and y.args[0].value is None]
+        r.check(bool(nulls), f"{m.short}#missing-value-spelled-out", site(m, ins[0]), src(ins[0])[:80], "the membership of None is translated with IS NULL / IS NOT NULL next to IN",
+                f"`{src(ins[0])[:60]}` is the whole translation: in_(o.w, [5.0, None]) selects the objects without w in memory and leaves their rows out in SQL (IN never matches NULL); "
+                "not-in is unknown for NULL rows likewise")
     return r
 
 
